@@ -251,3 +251,69 @@ fn probe_source_split_schedules() {
         }
     }
 }
+
+fn prepair(bytes: &[u8], layers: Layers) -> (FailSafeReadError, Vec<(String, Vec<u8>)>) {
+    let mut c = ArchiveReaderConfig::new();
+    if layers.contains(Layers::ENCRYPT) { c.add_private_keys(&[pkeys().0]); }
+    let mut fs = ArchiveFailSafeReader::from_config(bytes, c).expect("repair opens");
+    let mut oc = ArchiveWriterConfig::new();
+    oc.set_layers(Layers::EMPTY);
+    let mut ow = ArchiveWriter::from_config(Vec::new(), oc).unwrap();
+    let status = fs.convert_to_archive(&mut ow).expect("repair runs");
+    (status, pread_all(Cursor::new(ow.into_raw()), Layers::EMPTY))
+}
+
+/// C05/C02: repairing an undamaged archive (interleaved files, an EMPTY file, a file ending on a buffer boundary) recovers every
+/// file completely and reports the end of the original data -- never an internal error
+#[test]
+fn probe_repair_undamaged_is_complete() {
+    for layers in [Layers::EMPTY, Layers::COMPRESS, Layers::ENCRYPT, Layers::COMPRESS | Layers::ENCRYPT] {
+        let bytes = pwrite_to(Vec::new(), layers);
+        let (status, got) = prepair(&bytes, layers);
+        assert!(matches!(status, FailSafeReadError::EndOfOriginalArchiveData), "layers {layers:?}: repair of an undamaged archive stopped with {status:?}");
+        assert!(got == pexpected(), "layers {layers:?}: repaired content differs from the original");
+    }
+}
+
+/// C08/C02: block-level splices of a valid archive (blocks swapped, duplicated, dropped) never make repair panic, and every file it
+/// reports as finished has the original content
+#[test]
+fn probe_repair_block_splices_no_panic() {
+    // raw layout without layers: header, then blocks; build from a single two-block file so that offsets are easy to find
+    let mut c = ArchiveWriterConfig::new();
+    c.set_layers(Layers::EMPTY);
+    let mut w = ArchiveWriter::from_config(Vec::new(), c).unwrap();
+    let id = w.start_file("f").unwrap();
+    w.append_file_content(id, 10, &[1u8; 10][..]).unwrap();
+    w.append_file_content(id, 20, &[2u8; 20][..]).unwrap();
+    w.end_file(id).unwrap();
+    w.finalize().unwrap();
+    let bytes = w.into_raw();
+    // block boundaries: FileStart = 1+8+8+1 ("f"), FileContent = 1+8+8+len, EndOfFile = 1+8+32, EndOfArchiveData = 1
+    let h = bytes.len() - {
+        // find the start of the blocks: first byte 0x00 (FileStart) followed by id 0 and name length 1
+        let mut p = 0;
+        while !(bytes[p] == 0 && bytes[p + 1..p + 9] == [0u8; 8] && bytes[p + 9..p + 17] == 1u64.to_le_bytes()) { p += 1; }
+        bytes.len() - p
+    };
+    let start = &bytes[h..h + 18];
+    let c1 = &bytes[h + 18..h + 18 + 27];
+    let c2 = &bytes[h + 45..h + 45 + 37];
+    let eof = &bytes[h + 82..h + 82 + 41];
+    let rest = &bytes[h + 123..];
+    let variants: Vec<Vec<&[u8]>> = vec![
+        vec![start, c1, eof, c2, rest], vec![start, eof, c1, c2, rest], vec![start, c1, c2, eof, eof, rest], vec![start, start, c1, c2, eof, rest],
+        vec![c1, start, c2, eof, rest], vec![start, c1, c2, rest], vec![start, c1, c1, c2, eof, rest], vec![eof, start, c1, c2, eof, rest],
+        vec![start, c1, c2, eof, c1, rest], vec![start, c2, c1, eof, rest],
+    ];
+    for (vi, v) in variants.iter().enumerate() {
+        let mut b = bytes[..h].to_vec();
+        for part in v { b.extend_from_slice(part); }
+        let r = std::panic::catch_unwind(|| prepair(&b, Layers::EMPTY));
+        assert!(r.is_ok(), "splice #{vi}: repair panicked");
+        let (status, got) = r.unwrap();
+        if matches!(status, FailSafeReadError::EndOfOriginalArchiveData) {
+            for (n, d) in &got { assert!(n == "f" && (d.len() <= 30), "splice #{vi}: unexpected file {n} of {} bytes", d.len()); }
+        }
+    }
+}
